@@ -80,6 +80,13 @@ func ParseTerm(raw json.RawMessage) (*Term, error) {
 			}
 		}
 		return t, nil
+	case "and", "or":
+		if err := sub(arr[1]); err != nil {
+			return nil, err
+		}
+		return t, sub(arr[2])
+	case "fill", "t", "f":
+		return t, nil
 	case "bin", "cmp":
 		if err := json.Unmarshal(arr[1], &t.F); err != nil {
 			return nil, err
@@ -168,6 +175,21 @@ func (e *Evaluator) Eval(t *Term) Val {
 		return Val{V: e.D.Zero(), Exact: true}
 	case "ix":
 		return Val{V: t.N, Exact: true}
+	case "fill":
+		return Val{V: FillValue(e.D), Exact: true}
+	case "t":
+		return Val{V: true, Exact: true}
+	case "f":
+		return Val{V: false, Exact: true}
+	case "and", "or":
+		a, b := e.Eval(t.Args[0]), e.Eval(t.Args[1])
+		if a.Open || b.Open {
+			return Val{Open: true}
+		}
+		if t.Head == "and" {
+			return Val{V: a.V.(bool) && b.V.(bool), Exact: true}
+		}
+		return Val{V: a.V.(bool) || b.V.(bool), Exact: true}
 	case "un":
 		a := e.Eval(t.Args[0])
 		if a.Open {
@@ -849,4 +871,43 @@ func Within(a, b interface{}, tol float64) bool {
 		return ok && cmplx.Abs(x-y) <= tol
 	}
 	return false
+}
+
+// FillValue is the documented default fill value of a masked tensor of the element type.
+func FillValue(d *DT) interface{} {
+	switch d.Name {
+	case "bool":
+		return true
+	case "int":
+		return int(999999)
+	case "int8":
+		return int8(99)
+	case "int16":
+		return int16(9999)
+	case "int32":
+		return int32(999999)
+	case "int64":
+		return int64(999999)
+	case "uint":
+		return uint(999999)
+	case "uint8":
+		return uint8(99)
+	case "uint16":
+		return uint16(9999)
+	case "uint32":
+		return uint32(999999)
+	case "uint64":
+		return uint64(999999)
+	case "float32":
+		return float32(1.0e20)
+	case "float64":
+		return float64(1.0e20)
+	case "complex64":
+		return complex64(1.0e20 + 0i)
+	case "complex128":
+		return complex128(1.0e20 + 0i)
+	case "string":
+		return "N/A"
+	}
+	return nil
 }
